@@ -169,3 +169,20 @@ package htmldoc
 //@     exhaustive
 //@     step text_node_appended_verbatim: !isnil(prev(c)) && prev(c).Type == html.TextNode ==> sameseq(result.String(), prev(result.String()) + prev(c).Data)
 //@     step text_is_only_appended: len(result.String()) >= prev(len(result.String()))
+
+// ---- C19: a table cell carries the WHOLE text of its <td>/<th> (block children included), in every mode; every cell
+// of the row is collected ----
+// getTextContent is used in contracts as a deterministic function of the node (the tree is not modified while the
+// reader walks it, A9); its own behaviour is covered by the contract of getTextContentRecursive
+//@ func getTextContent results (r)
+//@   property C19
+//@   flags pure, trusted
+//@ func (*Reader) parseTableRow results (res)
+//@   property C19
+//@   flags nosafety
+//@   loop 0:
+//@     exhaustive
+//@     step cell_text_is_the_whole_text_of_the_cell: !isnil(prev(c)) && prev(c).Type == html.ElementNode && (prev(c).Data == "td" || prev(c).Data == "th") ==> len(row) == prev(len(row)) + 1 && row[len(row)-1].Text == strings.TrimSpace(getTextContent(prev(c)))
+//@     step other_children_add_nothing: !isnil(prev(c)) && !(prev(c).Type == html.ElementNode && (prev(c).Data == "td" || prev(c).Data == "th")) ==> len(row) == prev(len(row))
+//@   loop 1:
+//@     invariant cell.Text == strings.TrimSpace(getTextContent(c))
